@@ -151,7 +151,7 @@ theorem C10_import_earlier {df : Defects} {src dst dst' : Site} (hinv : SiteInv 
   have hcid : cand.rid = rid := by rw [hc]; show rr.rid = rid; exact getStored_some hs
   have hnod : (cand.groups.map (·.gid)).Nodup := by
     rw [hc]; exact exportRoom_gids_nodup (agreesOrd_gids_nodup ha hw)
-  have hsame : SameRows merged cand := prepareWithHistory_sameRows hcov hnod hprep
+  obtain ⟨hsame, hmrid⟩ := prepareWithHistory_sameRows hcov hnod hprep
   unfold Site.importRoom at hi
   split at hi
   · cases hi
@@ -162,22 +162,7 @@ theorem C10_import_earlier {df : Defects} {src dst dst' : Site} (hinv : SiteInv 
     · rename_i room' hparse
       cases hi
       obtain ⟨ha', hw', hid'⟩ := parseRoom_agreesOrd (liftErr_ok hparse)
-      have hmid : merged.rid = rid := by
-        -- the merged row keeps the candidate's id
-        unfold prepareWithHistory at hprep
-        split at hprep
-        · cases hprep
-        · simp only at hprep
-          split at hprep
-          · cases hprep
-          · split at hprep
-            · cases hprep
-            · split at hprep
-              · cases hprep
-              · split at hprep
-                · cases hprep
-                · simp only [Except.ok.injEq, Prod.mk.injEq] at hprep
-                  rw [← hprep.2]; exact hcid
+      have hmid : merged.rid = rid := hmrid.trans hcid
       refine ⟨room', rr, ?_, hs, ?_⟩
       · rw [getMem_noteInserted, getMem_setMem]
         have : room'.id = rid := hid'.trans hmid
@@ -260,22 +245,25 @@ example :
         (dst.importRoom Defects.none cand).toBool
       | _, _, _ => false) = true := by decide
 
-/-! ### the code as it is (`Defects.asImplemented`): the full statement is false -/
+/-! ### the code as it is: the full statement is false
+
+Each witness turns ONE switch on over the intended behaviour (so that it stays valid when `Defects.asImplemented`
+changes after a fix in /repo) and shows the statement failing, then holding again with the switch off. -/
 
 /-- **C10_breaks_newestFirstReplay (#4).** After a second entry for one key (user 4 disabled at a later
     date) the instance cannot be restarted, and a fresh peer cannot import the room: the entries are
     replayed newest first into the append-only histories. -/
 theorem C10_breaks_newestFirstReplay :
-    (site2.restart Defects.asImplemented).toBool = false ∧
-    (imported Defects.asImplemented site2 Site.empty).toBool = false ∧
-    (site2.restart { Defects.asImplemented with newestFirstReplay := false }).toBool = true := by decide
+    (site2.restart { Defects.none with newestFirstReplay := true }).toBool = false ∧
+    (imported { Defects.none with newestFirstReplay := true } site2 Site.empty).toBool = false ∧
+    (site2.restart Defects.none).toBool = true := by decide
 
 /-- **C10_breaks_reloadRawRights (#5).** A right `{mutate_self: false, mutate_all: true}` grants own-row
     mutations live and on an importer (normalised by `EntityRight::new`) but not after a restart. -/
 theorem C10_breaks_reloadRawRights :
     canAt site1 4 1 1 .mutateSelf = true ∧
-    canAt (restarted Defects.asImplemented site1) 4 1 1 .mutateSelf = false ∧
-    canAt (restarted { Defects.asImplemented with reloadRawRights := false } site1) 4 1 1 .mutateSelf = true := by
+    canAt (restarted { Defects.none with reloadRawRights := true } site1) 4 1 1 .mutateSelf = false ∧
+    canAt (restarted Defects.none site1) 4 1 1 .mutateSelf = true := by
   decide
 
 /-- a room with two admins and no group -/
@@ -290,8 +278,9 @@ def adminAtSite (s : Site) (k : Key) (d : Int) : Bool :=
 /-- **C10_breaks_reloadDropsIncompleteRoom.** A room without group is not loaded at start-up: key 2 is an
     admin before the restart and unknown after it. -/
 theorem C10_breaks_reloadDropsIncompleteRoom :
-    adminAtSite site3 2 1 = true ∧ adminAtSite (restarted Defects.asImplemented site3) 2 1 = false ∧
-    adminAtSite (restarted { Defects.asImplemented with reloadDropsIncompleteRoom := false } site3) 2 1 = true := by
+    adminAtSite site3 2 1 = true ∧
+    adminAtSite (restarted { Defects.none with reloadDropsIncompleteRoom := true } site3) 2 1 = false ∧
+    adminAtSite (restarted Defects.none site3) 2 1 = true := by
   decide
 
 /-- at date 2 admin 1 adds a new group 1 with user 4, without making itself user admin of it -/
@@ -305,26 +294,26 @@ def peer3 (df : Defects) : Site := match imported df site3 Site.empty with | .ok
     group (its user was added by a room admin who is not user admin of the new group); a fresh peer accepts
     the very same definition. -/
 theorem C10_breaks_newGroupUsersRule :
-    (imported Defects.asImplemented site4 (peer3 Defects.asImplemented)).toBool = false ∧
-    (imported Defects.asImplemented site4 Site.empty).toBool = true ∧
-    (imported { Defects.asImplemented with newGroupUsersNeedUserAdmin := false } site4
-      (peer3 Defects.asImplemented)).toBool = true := by decide
+    (imported { Defects.none with newGroupUsersNeedUserAdmin := true } site4 (peer3 Defects.none)).toBool = false ∧
+    (imported { Defects.none with newGroupUsersNeedUserAdmin := true } site4 Site.empty).toBool = true ∧
+    (imported Defects.none site4 (peer3 Defects.none)).toBool = true := by decide
 
 /-- **C10_partial (the code as it is, under an explicit guard).** An instance satisfying the invariant
     (it does after any sequence of local room mutations and imports: `siteInv_mutate`, `siteInv_import`,
     which hold for the code as it is) whose stored rooms all satisfy `ReloadGuard` — one date per key in
     every list, no right with all-rows but not own-rows, at least one admin entry and one group — restarts
-    successfully, satisfies the invariant again, and every room means the same afterwards.
+    successfully, satisfies the invariant again, and every room means the same afterwards — whatever the
+    switches are (`df` arbitrary), in particular for `Defects.asImplemented`.
     What is missing with respect to the full statement: histories with a second date for some key (#4),
     un-normalised rights (#5), rooms without group or admin, and — for imports on top of an earlier version —
     new groups whose users were added by a plain admin (#33). -/
-theorem C10_partial {s : Site} (hi : SiteInv s) (hd : s.dead = false)
+theorem C10_partial (df : Defects) {s : Site} (hi : SiteInv s) (hd : s.dead = false)
     (hg : ∀ rr ∈ s.stored, ReloadGuard rr) :
-    ∃ s', s.restart Defects.asImplemented = .ok s' ∧ SiteInv s' ∧ s'.dead = false ∧
+    ∃ s', s.restart df = .ok s' ∧ SiteInv s' ∧ s'.dead = false ∧
       ∀ rid r, s.getMem rid = some r →
         ∃ r' rr, s'.getMem rid = some r' ∧ s.getStored rid = some rr ∧
           (TiesHarmless rr → ∀ d, r.SameAt r' d) := by
-  obtain ⟨s', hr, hi', _, hd', hrooms⟩ := restart_ok (df := Defects.asImplemented) hi hd
+  obtain ⟨s', hr, hi', _, hd', hrooms⟩ := restart_ok (df := df) hi hd
     (fun rr hrr => loads_guarded (gidsNodup_of_inv hi rr hrr) (hg rr hrr))
   refine ⟨s', hr, hi', hd', ?_⟩
   intro rid r hm
@@ -357,9 +346,26 @@ example : site5.stored = [rows5] ∧ (∀ rr ∈ site5.stored, ReloadGuard rr) :
   subst this
   constructor <;> decide
 
-example : canAt site5 4 1 1 .mutateAll = true ∧ canAt (restarted Defects.asImplemented site5) 4 1 1 .mutateAll = true ∧
-    canAt site5 5 1 1 .mutateSelf = false ∧ canAt (restarted Defects.asImplemented site5) 5 1 1 .mutateSelf = false := by
+example : canAt site5 4 1 1 .mutateAll = true ∧
+    canAt (restarted ⟨true, true, true, true, false⟩ site5) 4 1 1 .mutateAll = true ∧
+    canAt site5 5 1 1 .mutateSelf = false ∧
+    canAt (restarted ⟨true, true, true, true, false⟩ site5) 5 1 1 .mutateSelf = false := by
   decide
+
+/-- a room created by key 1 with an empty group and NO admin entry -/
+def m7 : MutSpec :=
+  { rid := 0, isNew := true, date := 1, admins := [],
+    groups := [{ gid := 0, isNew := true, rights := [], users := [], userAdmins := [] }] }
+def site7 : Site := match Site.empty.mutate 1 0 m7 with | .ok s => s | .error _ => Site.empty
+
+/-- **C10_breaks_groupCreatedByNonAdmin.** The live path lets a creator add an empty group without being admin
+    of the room (nothing in `validate_authorisation_mutation` asks for it); every importer refuses the group row
+    because its author is not admin (`prepare_new_room`). No switch of `Defects` removes this: the two rules
+    simply differ — which is why C10 states "means the same WHEN accepted" and proves acceptance only for reload.
+    (Replayed on the real code: corpus/C10/group-created-by-non-admin.ops.) -/
+theorem C10_breaks_groupCreatedByNonAdmin :
+    (Site.empty.mutate 1 0 m7).toBool = true ∧
+    (imported Defects.none site7 Site.empty).toBool = false := by decide
 
 /-- at date 1 (the date of the creation) key 1 disables admin 2: two entries of key 2 with one date -/
 def m6 : MutSpec := { rid := 0, isNew := false, date := 1, admins := [(2, false)], groups := [] }
